@@ -151,6 +151,29 @@ class C02(C01):
                 for pw in ("logic", "math", None):
                     out.append({"expr": e, "pathway": pw, "tools": [], "allowed": None, "silent": True, "subset": False})
                 continue
+            if rng.random() < 0.05:
+                # results at the float range boundary: Python raises OverflowError / returns inf exactly where it does
+                e = rng.choice(["exp(710)", "exp(709)", "exp(9**3)", "2**2000.0", "9.5**9**3", "cosh(800)", "sinh(-800)",
+                                "1e308 * 10", "-1e308 * 10", "exp(710) > 5", "1 if cosh(8*100) > 1 else 0", "2.0**1024",
+                                "2.0**1023", "float(10**400)", "10**400 / 1", "1e308 + 1e308", "pow(10, 400)", "10.0**-400",
+                                "max(exp(710), 1)", "sqrt(-1)", "log(0)", "factorial(170) / 1", "factorial(171) / 1"])
+                out.append({"expr": e, "pathway": rng.choice([None, "math", "logic"]), "tools": [], "allowed": None,
+                            "silent": True, "subset": True})
+                continue
+            if rng.random() < 0.06:
+                # arguments that compare equal but are not the same value: 5 / 5.0 / True+4, 0.0 / -0.0 (in both orders,
+                # consecutively, so that any result carried from one evaluation to the next shows)
+                f, a, b = rng.choice([("factorial", "5", "5.0"), ("gcd", "12, 8", "12.0, 8"), ("atan2", "0.0, -1", "-0.0, -1"),
+                                      ("factorial", "1", "True"), ("sqrt", "4", "4.0"), ("floor", "2", "2.0"), ("int", "1", "True"),
+                                      ("atan2", "-0.0, -1.0", "0, -1"), ("pow", "0.0, -1", "-0.0, -1"), ("round", "2", "2.0"),
+                                      ("trunc", "7", "7.0"), ("log2", "8", "8.0"), ("degrees", "0.0", "-0.0"), ("abs", "-0.0", "0")])
+                pair = [f"{f}({a})", f"{f}({b})"]
+                if rng.random() < 0.5:
+                    pair.reverse()
+                for e in pair + [f"{pair[1]} < 0", f"1 / {pair[0]}" if f == "degrees" else pair[0]]:
+                    out.append({"expr": e, "pathway": rng.choice([None, "math"]), "tools": [], "allowed": None,
+                                "silent": True, "subset": True})
+                continue
             expr = g.any(rng.randint(1, 4))
             if expr.startswith("("):
                 expr = expr[1:-1] if rng.random() < 0.5 and expr.count("(") == 1 else expr
@@ -190,6 +213,14 @@ class C02(C01):
             ref = ("raises", type(e).__name__)
         trace["ref"] = ref
         trace["pw"] = pw
+        # the engine exactly as shipped (no logging shims on its tables), same expression, same pathway
+        try:
+            from operon_ai.organelles.mitochondria import Mitochondria, MetabolicPathway
+            plain = Mitochondria(silent=True).metabolize(
+                expr, {p.value: p for p in MetabolicPathway}[case["pathway"]] if case["pathway"] else None)
+            trace["plain"] = (bool(plain.success), plain.atp.value if plain.success and plain.atp else None)
+        except BaseException as e:  # noqa
+            trace["plain"] = ("raised", type(e).__name__)
         obs.append([1 if case.get("subset") else 0])
         if case.get("subset") and pw in ("math", "logic"):
             obs.append([1, rec.I.vid(ref[1])] if ref[0] == "ok" else [0, -1])
@@ -209,6 +240,17 @@ class C02(C01):
         if not ref or ref[0] == "unparsed" or trace.get("pw") not in ("math", "logic"):
             return None
         res = trace["res"]
+        plain = trace.get("plain")
+        if plain is not None:
+            if plain[0] == "raised":
+                return Violation("C02/raises", f"metabolize raised {plain[1]} on the un-instrumented engine")
+            if plain[0] is True:
+                if ref[0] == "raises":
+                    return Violation("C02/success-where-python-raises",
+                                     f"engine returned {plain[1]!r} for {case['expr']!r} but Python raises {ref[1]}")
+                if not py_equal(plain[1], ref[1]):
+                    return Violation("C02/value-differs",
+                                     f"engine returned {plain[1]!r} for {case['expr']!r} ({trace['pw']}), Python gives {ref[1]!r}")
         if res.success:
             if ref[0] == "raises":
                 return Violation("C02/success-where-python-raises",
